@@ -30,6 +30,25 @@ thread_local! {
     static ROLE: Cell<u8> = const { Cell::new(0) };
     static TRNG: RefCell<Rng> = RefCell::new(Rng::new(0));
     static NO_DELAY: Cell<bool> = const { Cell::new(false) };
+    static IN_RETAIN: Cell<bool> = const { Cell::new(false) };
+}
+
+/// While alive, callbacks made on this thread are not schedule points: `retain()` calls the predicate and
+/// `Manager::detach` with the pool's lock held, and parking inside a lock region shows nothing.
+pub struct InRetain;
+impl InRetain {
+    pub fn enter() -> InRetain {
+        IN_RETAIN.with(|c| c.set(true));
+        InRetain
+    }
+    pub fn active() -> bool {
+        IN_RETAIN.with(|c| c.get())
+    }
+}
+impl Drop for InRetain {
+    fn drop(&mut self) {
+        IN_RETAIN.with(|c| c.set(false));
+    }
 }
 
 #[derive(Clone, Copy, PartialEq, Eq, Debug)]
